@@ -10,6 +10,13 @@ import (
 // semantics without needing to emit every events.
 // This will use memory proportional to one change for each id that has not been emitted yet.
 func mergeCollectionExcess(in <-chan any) <-chan any {
+	return mergeCollectionExcessAfter(in, 0)
+}
+
+// mergeCollectionExcessAfter is mergeCollectionExcess for a subscriber whose seed already reflects every write with a
+// ticket below reflected: the events of those writes are skipped instead of being merged with later ones (an ADD the
+// subscriber already holds would otherwise cancel the REMOVE that follows it).
+func mergeCollectionExcessAfter(in <-chan any, reflected uint64) <-chan any {
 	out := make(chan any)
 	go func() {
 		defer close(out)
@@ -32,7 +39,11 @@ func mergeCollectionExcess(in <-chan any) <-chan any {
 					if !ok {
 						return
 					}
-					newMessage := *(newAny.(*CollectionChange))
+					newChange, skip := unpublished(newAny, reflected)
+					if skip {
+						continue
+					}
+					newMessage := *newChange
 					oldMessage, hasOld := messages[newMessage.Id]
 					id := newMessage.Id
 					if hasOld {
@@ -62,7 +73,11 @@ func mergeCollectionExcess(in <-chan any) <-chan any {
 				if !ok {
 					return
 				}
-				newMessage := *(newAny.(*CollectionChange))
+				newChange, skip := unpublished(newAny, reflected)
+				if skip {
+					continue
+				}
+				newMessage := *newChange
 				messages[newMessage.Id] = newMessage
 				queue.PushBack(newMessage.Id)
 			}
